@@ -614,22 +614,6 @@ def run(tier):
     chk.guard(rule_r3, chk, prog)
     chk.guard(rule_r4, chk, prog)
     chk.guard(rule_r5, chk, prog)
-    # the only place where a measured time becomes a decision is the
-    # default time limit: it must be the documented, generous multiple of
-    # the run time of the command it limits (shared with C10.R4)
-    from . import c10
-    sub10 = Check('C10', 'other', tier, [], [])
-    chk.guard(c10.rule_r4, sub10, prog)
-    sub10.instances = [r for r in sub10.instances
-                       if 'default' in r['what'] or 'timeout' in r['what']]
-    sub10.findings = [f_ for f_ in sub10.findings
-                      if 'default' in f_.construct or 'timeout' in
-                      f_.construct]
-    chk.adopt('C18.R6', 'each command\'s default time limit is derived from '
-              'its own golden run ((t + 1) * 1.5): a limit taken from the '
-              'other command\'s run makes acceptance depend on how long a '
-              'deterministic command happens to take (shared with C10.R4)',
-              sub10)
     extra = None
     if tier == 'thorough':
         from .. import selftest
